@@ -15,7 +15,9 @@ use virtio_drivers::{BufferDirection, Hal, PhysAddr};
 
 pub const PAGE: usize = 4096;
 pub const DMA_BASE: u64 = 0x4000_0000_0000;
-pub const DMA_STRIDE: u64 = 1 << 24;
+/// consecutive DMA regions differ in the upper 32 bits of their device address as well, so that a
+/// transport which mixes up the halves of two addresses is caught (regions are at most 2^24 bytes)
+pub const DMA_STRIDE: u64 = (1 << 32) + (1 << 24);
 pub const SHARE_BASE: u64 = 0x6000_0000_0000;
 pub const SHARE_STRIDE: u64 = 1 << 20;
 pub const P2V_BASE: usize = 0x7000_0000_0000;
@@ -41,6 +43,8 @@ pub struct DmaRegion {
 pub struct Share {
     pub paddr: u64,
     pub bounce: Vec<u8>,
+    /// shared in place (identity-mapping platform): the device address maps to the caller's memory
+    pub inplace: bool,
     pub orig: *mut u8,
     pub len: usize,
     pub dir: BufferDirection,
@@ -99,6 +103,9 @@ pub struct HalState {
     pub poison: u8,
     /// indices of live shares (kept small so long soaks stay linear)
     pub live_idx: Vec<usize>,
+    /// new shares are made in place (no bounce buffer): what the device writes is in the caller's
+    /// buffer at once, as on a platform without an IOMMU / bounce buffers
+    pub inplace: bool,
 }
 
 thread_local! {
@@ -130,6 +137,7 @@ pub fn with<R>(f: impl FnOnce(&mut HalState) -> R) -> R {
 
 /// Resets the platform for a new case and frees all host memory of the previous one.
 pub fn reset() {
+    crate::wake::reset();
     with(|h| {
         for r in h.dma.drain(..) {
             // SAFETY: allocated with this layout in `dma_alloc`.
@@ -175,6 +183,9 @@ impl HalState {
             }
             if off + len > s.len {
                 return Err(format!("device access beyond shared range S{}+{} len {} (shared {})", k, off, len, s.len));
+            }
+            if s.inplace {
+                return Ok(s.orig.wrapping_add(off));
             }
             return Ok(s.bounce.as_mut_ptr().wrapping_add(off));
         }
@@ -329,13 +340,14 @@ unsafe impl Hal for LedgerHal {
                 }
             }
             h.live_idx.push(k);
-            let mut bounce = vec![h.poison; len];
-            if direction != BufferDirection::DeviceToDriver {
+            let inplace = h.inplace;
+            let mut bounce = if inplace { Vec::new() } else { vec![h.poison; len] };
+            if !inplace && direction != BufferDirection::DeviceToDriver {
                 // SAFETY: caller guarantees the buffer is valid.
                 unsafe { std::ptr::copy_nonoverlapping(ptr, bounce.as_mut_ptr(), len) };
             }
             let paddr = SHARE_BASE + SHARE_STRIDE * k as u64;
-            h.shares.push(Share { paddr, bounce, orig: ptr, len, dir: direction, ap: access_platform, live: true, name: name.clone() });
+            h.shares.push(Share { paddr, bounce, inplace, orig: ptr, len, dir: direction, ap: access_platform, live: true, name: name.clone() });
             h.events.push_ev(HalEv::Share { k, name, len, dir: direction, ap: access_platform });
             paddr
         })
@@ -370,7 +382,7 @@ unsafe impl Hal for LedgerHal {
                     if s.ap != access_platform {
                         v.push(format!("unshare of S{} with different access_platform", k));
                     }
-                    if s.live && s.orig == ptr && s.len == len && direction != BufferDirection::DriverToDevice {
+                    if !s.inplace && s.live && s.orig == ptr && s.len == len && direction != BufferDirection::DriverToDevice {
                         // SAFETY: caller guarantees the buffer is valid.
                         unsafe { std::ptr::copy_nonoverlapping(s.bounce.as_ptr(), ptr, len) };
                     }
